@@ -285,9 +285,10 @@ def replay_real(kw, path):
     return bool(hit)
 
 
-def engine_r_d(kw, n_inputs, processes):
-    """Real host, D: the same crate expanded by `processes` separate nightly rustc processes
-    (different OS hash keys, ASLR, pid, clock); the expanded text must be byte-identical."""
+def engine_r_d(kw, n_inputs, processes, shards=16):
+    """Real host, D: every shard of the generated crate is expanded by `processes` separate
+    nightly rustc processes (different OS hash keys, ASLR, pid, clock); the expanded text must
+    be byte-identical. Shards keep rustc's diagnostics for the unresolved names cheap."""
     exe, out, seed = kw["exe"], kw["out"], kw["seed"]
     d = os.path.join(out, "engine-rd")
     shutil.rmtree(d, ignore_errors=True)
@@ -297,71 +298,86 @@ def engine_r_d(kw, n_inputs, processes):
         so = build_real_dylib(kw["repo"], os.path.join(out, "r-target-nightly"), "nightly")
     except HarnessError as e:
         return {"skipped": f"nightly dylib not buildable: {str(e)[:200]}"}, [], 0
-    f = os.path.join(d, "d.rs")
-    r = subprocess.run([exe, "emit-crate", "--repo", kw["repo"], "--root", str(seed), "--n", str(n_inputs),
-                        "--with-pool", "--ok-only", "--out", f], env={"PATH": "/usr/bin:/bin"},
-                       capture_output=True, text=True)
-    if r.returncode != 0:
-        raise HarnessError(f"emit-crate failed: {r.stderr[-2000:]}")
-    index = json.load(open(f[:-3] + ".index.json"))
+    files = [os.path.join(d, f"d{c}.rs") for c in range(shards)]
 
-    def expand(_):
+    def emit(c):
+        r = subprocess.run([exe, "emit-crate", "--repo", kw["repo"], "--root", str(seed), "--n", str(n_inputs),
+                            "--with-pool", "--ok-only", "--shard", f"{c}/{shards}", "--out", files[c]],
+                           env={"PATH": "/usr/bin:/bin"}, capture_output=True, text=True)
+        if r.returncode != 0:
+            raise HarnessError(f"emit-crate failed: {r.stderr[-2000:]}")
+
+    def expand(job):
+        c, _ = job
         try:
             r = subprocess.run(["rustc", "+nightly", "--edition", "2021", "--crate-type", "lib",
-                                "-Zunpretty=expanded", "--extern", f"derive_ex={so}", f],
+                                "-Zunpretty=expanded", "--extern", f"derive_ex={so}", files[c]],
                                env=_env(), capture_output=True, text=True, timeout=RUSTC_TIMEOUT_S)
         except subprocess.TimeoutExpired:
-            return "", "please recompile that crate (timed out)"
-        return r.stdout, r.stderr
+            return c, None, "timed out"
+        return c, r.stdout, r.stderr
 
-    with concurrent.futures.ThreadPoolExecutor(max_workers=min(processes, kw["jobs"])) as ex:
-        outs = list(ex.map(expand, range(processes)))
-    base = outs[0][0]
-    if "please recompile that crate" in outs[0][1] or base.count("#[automatically_derived]") < len(index):
-        # the dylib did not load or nothing expanded: this pass proves nothing, say so
-        shutil.rmtree(d, ignore_errors=True)
-        return {"skipped": "the nightly compiler did not expand the crate (dylib not loaded or errors "
-                           "stopped expansion); pass not counted"}, [], 0
+    with concurrent.futures.ThreadPoolExecutor(max_workers=kw["jobs"]) as ex:
+        list(ex.map(emit, range(shards)))
+        results = list(ex.map(expand, [(c, k) for c in range(shards) for k in range(processes)]))
     classes = []
-    for k, (o, _) in enumerate(outs[1:], 1):
-        if o != base:
-            a, b = base.splitlines(), o.splitlines()
-            where = next((i for i, (x, y) in enumerate(zip(a, b)) if x != y), min(len(a), len(b)))
-            mod = _module_at(a, where + 1)
-            ent = next((e for e in index if e["module"] == mod), None)
-            req = ent["req"] if ent else {"mode": "attr", "attr": "", "item": ""}
-            disp = (f"#[derive_ex({req['attr']})] {req['item']}" if req["mode"] == "attr"
-                    else f"#[derive(Ex)] {req['item']}")
-            p = os.path.join(kw["replays"], f"C16-real-diverge-{hashlib.sha1(disp.encode()).hexdigest()[:12]}.json")
-            json.dump({"property": "C16", "class": "diverge-across-processes", "kind": "diverge", "engine": "R",
-                       "detail": f"two rustc processes expanded module {mod} differently",
-                       "root_seed": seed, "session_idx": 0, "original_step": 0, "original_steps_in_session": 1,
-                       "minimisation_trials": 0, "reproducible": False, "input": disp,
-                       "output_a": "\n".join(a[max(0, where - 3):where + 4]),
-                       "output_b": "\n".join(b[max(0, where - 3):where + 4]),
-                       "plan": {"reqs": [req], "steps": [{"req": 0, "thread": "main", "policy": {"kind": "os"}}]}},
-                      open(p, "w"), indent=1)
-            classes.append({"class": "diverge-across-processes (real host)", "kind": "diverge", "occurrences": 1,
-                            "replay": p, "reproducible": False, "input": disp,
-                            "detail": f"process 0 line {where + 1}: `{a[where] if where < len(a) else ''}` vs process {k}: "
-                                      f"`{b[where] if where < len(b) else ''}`"})
-            break
-    # cross-check N against R: the real bridge and the fallback must agree on the tokens
-    agree, compared = _cross_check(kw, base, index)
+    modules = 0
+    skipped = 0
+    agree = compared = 0
+    for c in range(shards):
+        index = json.load(open(files[c][:-3] + ".index.json"))
+        outs = [(o, e) for (cc, o, e) in results if cc == c]
+        base = outs[0][0]
+        if base is None or any(o is None for o, _ in outs) or "please recompile that crate" in outs[0][1] \
+                or base.count("#[automatically_derived]") < len(index):
+            # the dylib did not load, rustc gave up or timed out: this shard proves nothing
+            skipped += 1
+            continue
+        modules += len(index)
+        for k, (o, _) in enumerate(outs[1:], 1):
+            if o != base and not classes:
+                a, b = base.splitlines(), o.splitlines()
+                where = next((i for i, (x, y) in enumerate(zip(a, b)) if x != y), min(len(a), len(b)))
+                mod = _module_at(a, where + 1)
+                ent = next((e for e in index if e["module"] == mod), None)
+                req = ent["req"] if ent else {"mode": "attr", "attr": "", "item": ""}
+                disp = (f"#[derive_ex({req['attr']})] {req['item']}" if req["mode"] == "attr"
+                        else f"#[derive(Ex)] {req['item']}")
+                p = os.path.join(kw["replays"], f"C16-real-diverge-{hashlib.sha1(disp.encode()).hexdigest()[:12]}.json")
+                json.dump({"property": "C16", "class": "diverge-across-processes", "kind": "diverge", "engine": "R",
+                           "detail": f"two rustc processes expanded module {mod} differently",
+                           "root_seed": seed, "session_idx": 0, "original_step": 0, "original_steps_in_session": 1,
+                           "minimisation_trials": 0, "reproducible": False, "input": disp,
+                           "output_a": "\n".join(a[max(0, where - 3):where + 4]),
+                           "output_b": "\n".join(b[max(0, where - 3):where + 4]),
+                           "plan": {"reqs": [req], "steps": [{"req": 0, "thread": "main", "policy": {"kind": "os"}}]}},
+                          open(p, "w"), indent=1)
+                classes.append({"class": "diverge-across-processes (real host)", "kind": "diverge", "occurrences": 1,
+                                "replay": p, "reproducible": False, "input": disp,
+                                "detail": f"process 0 line {where + 1}: `{a[where] if where < len(a) else ''}` vs process {k}: "
+                                          f"`{b[where] if where < len(b) else ''}`"})
+        # cross-check N against R: the real bridge and the fallback must agree on the tokens
+        a_, c_ = _cross_check(kw, base, files[c][:-3] + ".index.json", c)
+        agree += a_
+        compared += c_
     shutil.rmtree(d, ignore_errors=True)
-    return {"modules_expanded": len(index), "rustc_processes": processes, "byte_identical": not classes,
+    if modules == 0:
+        return {"skipped": "the nightly compiler did not expand any shard (dylib not loaded or errors stopped "
+                           "expansion); pass not counted"}, [], 0
+    return {"modules_expanded": modules, "shards": shards, "shards_not_counted": skipped,
+            "rustc_processes": shards * processes, "byte_identical": not classes,
             "native_vs_real_host_agreement": {"modules_compared": compared, "token_identical": agree},
-            "wall_s": round(time.time() - t0, 1)}, classes, len(index) * processes
+            "wall_s": round(time.time() - t0, 1)}, classes, modules * processes
 
 
-def _cross_check(kw, expanded, index):
+def _cross_check(kw, expanded, index_path, c):
     """Feeds the real host's expansion of every module back to dexsim, which re-lexes it and
     compares it (spacing-insensitively) with engine N's own output for the same request.
     Informational: pretty-printing is not guaranteed to be token-preserving."""
     d = os.path.join(kw["out"], "engine-rd")
-    p = os.path.join(d, "expanded.rs")
+    p = os.path.join(d, f"expanded{c}.rs")
     open(p, "w").write(expanded)
-    r = subprocess.run([kw["exe"], "cross-check", "--expanded", p, "--index", os.path.join(d, "d.index.json")],
+    r = subprocess.run([kw["exe"], "cross-check", "--expanded", p, "--index", index_path],
                        env={"PATH": "/usr/bin:/bin"}, capture_output=True, text=True)
     m = re.search(r"cross-check: (\d+) of (\d+)", r.stdout)
     if not m:
@@ -455,7 +471,7 @@ def run_extra(**kw):
                                                     "message-less compile_error!; nothing stubbed")
             res["classes"] += classes
             res["evaluations"] += ev
-            info, classes, ev = engine_r_d(kw, n_inputs=3000, processes=4)
+            info, classes, ev = engine_r_d(kw, n_inputs=3000, processes=3)
             res["engines"]["R-D"] = dict(info, what="shipped dylib built with nightly, nightly rustc -Zunpretty=expanded in "
                                                     "separate processes, byte comparison; nothing stubbed")
             res["classes"] += classes
